@@ -6,6 +6,7 @@ import Rpft.Drv.Cell
 import Rpft.Drv.Flow
 import Rpft.Drv.Campaign
 import Rpft.Drv.Infer
+import Rpft.Drv.Bulk
 open Lean Rpft.Drv
 
 def dispatch (j : Json) : Except String Json := do
@@ -15,6 +16,7 @@ def dispatch (j : Json) : Except String Json := do
   else if op.startsWith "flow." then handleFlow op j
   else if op.startsWith "campaign." || op.startsWith "trigger." then handleCampaign op j
   else if op.startsWith "infer." then handleInfer op j
+  else if op.startsWith "bulk." then handleBulk op j
   else throw s!"unknown op {op}"
 
 partial def loop (hin : IO.FS.Stream) (hout : IO.FS.Stream) : IO Unit := do
